@@ -1,299 +1,293 @@
-"""Claims per property (imported by sa.registry). Each claim names the decided clauses only."""
+"""Claims per property (imported by sa.registry). Each claim names the decided clauses only.
+
+Vocabulary used below:
+  "decision table"  = the function is interpreted from its AST (sa.interp: a partial evaluator, nothing of soupsieve is
+                      imported or run by CPython) on every case of a finite abstract input domain, collaborators replaced by
+                      recording stand-ins, and the resulting table is compared with the table the property prescribes;
+  "bounded table"   = the same on a finite family of small abstract bs4 trees / index ranges chosen to exercise every branch:
+                      a failing row is a genuine counterexample, a clean table is NOT a proof for all sizes;
+  "language query"  = inclusion / equivalence / ambiguity decided on automata built from the regex sources (re._parser).
+"""
 from .claimapi import claim, decline  # noqa: F401
 
+PE = 'partial evaluation of the AST over finite abstract inputs (decision tables)'
+
 claim(
-    'C07',
-    'Decided (sufficient under the backtracking model of sre): every regular expression of the package - 59 '
-    'compiled patterns and pattern templates folded from the sources, in every flags variant - is free of '
-    'exponential ambiguity (automata-theoretic EDA criterion with exact look-ahead/look-behind handling), every '
-    'token pattern consumes at least one character and the tokenizer loop advances on every path, no regex '
-    'application escapes the inventory, and custom-selector expansion is memoised. This quantifies over ALL input '
-    'strings, which no test or timing sample can. Not decided: wall-clock constants and the polynomial degree.',
-    'Static only: the regex sources are parsed with re._parser, never compiled or run.',
-    'regex ambiguity analysis (EDA via pair-graph SCC over look-ahead-exact eps-NFA) + scanner-loop path rule',
+    'C01',
+    'Decided (necessary conditions): (R1) no value obtained from get_parent() reaches match_selectors without a dominating '
+    '"not is_doc" test; (R2/R6) every pattern parse_attribute_selector compiles - per operator x case flag x attribute kind x value '
+    'spelling (quoted, unquoted, hex-escaped, a string that is empty only after decoding) - is, with re.match semantics, language-equal '
+    'to the operator definition, and ^= $= *= ~= with an empty operand have the empty language; (R3) token names = dispatch keys, '
+    'every regex group a handler reads exists, every simple pseudo-class name binds the definition / flag / An+B record it names; '
+    '(R4) the rel_type strings the parser stores = the REL_* constants the matcher branches on; (R5) decision tables of '
+    'match_selectors and its helpers: every IR field and flag is consulted, conjunctively, lists are disjunctions, :not negates, '
+    'SelectorNull is skipped; same-type-for-of-type, :root (document shapes with text / CDATA / comments around the root) and '
+    ':scope / :root identity among look-alike elements; (R7) a comma resets all per-alternative parser state and every simple '
+    'selector alone counts as a selector; (R8) class splitting and :empty use exactly the CSS white-space set. Not decided: '
+    'soundness/completeness of the combinator walks over all trees x selectors.',
+    '',
+    'taint/dominance rule + table agreement + regex language equality + ' + PE,
 )
 
 claim(
     'C02',
-    'Decided (necessary conditions, by structural rules): the interval beliefs about the candidate index in '
-    'match_nth agree (all lower bounds equal, all upper bounds equal, as linear forms over len(parent)); the token '
-    'grammar NTH, the splitter RE_NTH and the nth token groups are language-equivalent; the keyword pseudo-classes '
-    'and even/odd build exactly the An+B records they name; the -of-type sibling predicate is name AND namespace '
-    'equality and every SelectorNth field is read by the matcher. Not decided: the An+B arithmetic over all '
-    'integers and sibling sequences (needs a loop-invariant proof, another technique family).',
-    'Breaking any decided clause breaks the stated behaviour; holding them does not prove it.',
-    'AST consistency rule over linear bound forms + regex language equivalence + table agreement',
-)
-
-claim(
-    'C09',
-    'Decided (necessary conditions): the two alternatives of the combinator token cannot both match at one position '
-    '(exact look-ahead semantics); every unanchored regex search over raw selector text stays inside whitespace; on '
-    'every def-use path from a match group to the IR css_unescape is applied exactly once; every comparison of '
-    'matched text with a letter-bearing constant or table key sees text lower-cased after its last decode; the '
-    ':lang()/:-soup-contains() token grammars agree and their value lists are tiled by RE_VALUES; NEWLINE, WS, '
-    'COMMENTS, CSS_ESCAPES, IDENTIFIER, VALUE and the two escape decoders are language-equivalent to their CSS '
-    'Syntax 3 definitions. Not decided: equality of compiled structures for all respellings at all positions.',
-    'Reference grammars are transcribed from CSS Syntax 3 in the rule pack.',
-    'regex language queries (exclusivity, inclusion, equivalence) + string-provenance dataflow over the handlers',
-)
-
-claim(
-    'C10',
-    'Decided for every non-empty Unicode string (sufficient under the automata model): escape() is extracted as a '
-    'per-character transducer (position class x code-point interval set -> output template); the regular image '
-    'language is proved included in IDENTIFIER; every template class decodes back to its character against the '
-    "decoder's own tables (hex escapes vs the set of code points css_unescape replaces, backslash escapes vs hex "
-    'digits/newlines, literals vs backslash, NUL -> U+FFFD); escape() performs only total operations; and the '
-    'pattern text is handed from compile() to the tokenizer unmodified. Not decided: that the selected elements are '
-    'those carrying that id/class/attribute (C01); the empty string.',
-    'A construct outside the table vocabulary (e.g. a regex fast path inside escape()) is an ANALYSIS-ERROR, not a pass.',
-    'symbolic transducer extraction + regular-language inclusion',
-)
-
-claim(
-    'C18',
-    'Decided: (R1) each value-shape regex, with the semantics of the call that applies it, accepts only valid HTML '
-    'date/month/week/time/local-date-time/number strings and all of them within the implemented subset (the gap to '
-    'the full grammar - seconds, space separator - is a recorded known finding); (R2) the validators\' bounds and the '
-    'days-per-month code agree with the proleptic Gregorian calendar on every month x (year mod 400); (R3) calendar '
-    'library calls only receive years proven inside 1..9999 by interval arithmetic; (R4) the range-typed input list '
-    'agrees between the :in-range definition, parse_value and match_range; (R5) the decision part of match_range is '
-    'correct for every relative order and None-ness of (min, max, value) for every type, incl. wrapped time ranges. '
-    'Not decided: ISO week counts (the defect is pinned by the existing tests) and numeric conversion results.',
-    'R2 and R5 evaluate the AST over an exhaustive finite abstract domain after checking syntactically that the '
-    'abstraction applies (year only under % k, k | 400; values only compared).',
-    'regex language inclusion vs HTML grammars + finite-domain abstract evaluation of the validators',
+    'Decided: (R1) the interval beliefs about the candidate index in match_nth agree, and a bounded table of match_nth itself '
+    '(|a| <= 3, |b| <= 4, constant indices, from the end, of-type, "of S", three sibling lists of mixed node kinds: 1968 cases) equals '
+    'the definition of An+B; (R2) the token grammar NTH, the splitter RE_NTH and the nth token groups are language-equivalent (full '
+    'match, comments included); (R3) every An+B spelling class, even/odd and the six keyword pseudo-classes build exactly the record '
+    'they denote; (R4) the same-type predicate is name (document-normalised) AND namespace, every SelectorNth field is read, the '
+    'siblings counted are the children of the real parent (no iframe restriction), the implicit "of S" is *|*, and get_children / '
+    'get_tag_children enumerate from `start` in the requested direction. Not decided: the index arithmetic for all integers and '
+    'sibling counts (the bounded table exercises every branch but is not a proof).',
+    'The bounded table is labelled as such in the evidence.',
+    'AST consistency rule over linear bound forms + regex language equivalence + ' + PE + ' + bounded tables on abstract trees',
 )
 
 claim(
     'C03',
-    'Decided: (R1, exact) each of the six module-level wrappers passes pattern, namespaces, flags, custom and '
-    '**kwargs to compile() in the right slot and returns the same-named method applied to the call target (+ limit); '
-    '(R2) the top-level selector list is evaluated only inside CSSMatch.match, every verdict of CSSMatch.select/'
-    'closest/filter is CSSMatch.match, select = list(iselect), select_one = select(limit=1), select walks the tag '
-    'descendants of the target; (R3) CSSMatch.match cannot be true for the document object or a non-Tag (three-valued '
-    'path evaluation), the target is validated with TypeError; (R4) every SoupSieve method builds its matcher scoped on '
-    'its call target from the same fields. Not decided: document order/no duplicates, the limit arithmetic, :scope on '
-    'the document object.',
-    'Necessary conditions except R1, which is the forwarding clause itself.',
-    'AST forwarding/funnel rules + three-valued path evaluation of guard necessity',
-)
-
-claim(
-    'C15',
-    'Decided (necessary conditions): Immutable raises unconditionally from __setattr__ and __delattr__ and no subclass '
-    'overrides them or __eq__/__hash__; the maps define no mutator and copy their input; for each of the nine value '
-    'classes __slots__[:-1] = super().__init__ keywords = __init__ parameter order, the pickle/copy reducer rebuilds '
-    'through the constructor without _hash, equality and hash range over the same list, every class is registered; '
-    'contents are frozen and the map hash is built from sorted items; compile() hands exactly its four inputs to the '
-    'bounded lru_cache (maps wrapped under an is-not-None test), purge clears it, and compile(compiled, extra) cannot '
-    'return when any extra argument is given (three-valued path evaluation). Not decided: equality of values across '
-    'compile/pickle as observed results and LRU contents over call histories.',
+    'Decided: (R1, exact) each of the six module-level wrappers passes pattern, namespaces, flags, custom and **kwargs to compile() '
+    'in the right slot - also when the pattern argument is an already compiled selector - and returns the same-named method applied '
+    'to the call target (+ limit); (R2) every verdict of CSSMatch.select/closest/filter is CSSMatch.match, select = list(iselect), '
+    'select_one = select(limit=1); CSSMatch.select(limit) yields the first `limit` matches in document order for every match vector '
+    'over four candidates (all of them for limit < 1); get_descendants equals the document-order definition on eight abstract trees '
+    '(iframes in every position, several top-level nodes) for every start node, tags and no_iframe; (R3) CSSMatch.match cannot be '
+    'true for the document object or a non-Tag, the target is validated with TypeError, :scope/:root designate one node by identity; '
+    '(R4) decision table of the SoupSieve methods with a recording matcher: one fresh matcher per call target and per item of an '
+    'iterable, scoped on it, limit forwarded; closest() walks every ancestor, across iframe elements. Not decided: document order / '
+    'absence of duplicates on arbitrary trees.',
     '',
-    'AST table-agreement rules + three-valued path evaluation of the pass-through guards',
+    PE + ' with recording stand-ins + three-valued path evaluation of guard necessity + bounded tables on abstract trees',
 )
 
 claim(
-    'C16',
-    'Decided (sufficient for the stated failure mode, under the premise read from the installed bs4 sources that '
-    'bs4/__init__ imports soupsieve via bs4.builder -> bs4.element -> bs4.css before it binds Tag etc.): no '
-    'import-time code of the package - module/class level statements, base lists, decorators, defaults, and every '
-    'function reachable from them in the type-resolved call graph - evaluates bs4.<name> or `from bs4... import '
-    'name` for a name that is not yet bound at that moment (also when wrapped in try/except, which only makes the '
-    'behaviour order-dependent); module-level imports inside the package are acyclic; the same code reaches no '
-    'print/warn outside a debug guard. Not decided: equality of select() results between import orders.',
-    'The safe-name sets are recomputed from the installed bs4 on every run.',
-    'import-time reachability over a type-resolved call graph + bs4 import-chain analysis',
+    'C04',
+    'Decided: (R1, sufficient under the trusted base that bs4 read accessors are pure) every expression whose mypy type is a bs4 page '
+    'element is only ever read (no store/del/augmented assignment through it, no method outside a list of read accessors, no escape '
+    'into a foreign callable), and no matcher function stores into / calls a mutator on one of its parameters or an alias of one '
+    '(attribute value lists are typed Any); (R2) decision table of the SoupSieve methods: a fresh matcher per call target and per '
+    'item, never shared or stored; nothing reachable from the matching API rebinds globals; (R3) the memo tables are fresh per-matcher '
+    'lists keyed by identity, appended only under the key the lookup compares; with ONE matcher, the language found (content-language '
+    'memo, two documents) and the default button found (three forms, two with identical markup, six visiting orders) equal what a '
+    'fresh matcher finds; (R4) match_selectors restores the prefix map and the iframe restriction on every path (64-case table) and '
+    'the save/restore path rule holds. Not decided: equality of answers across two runs on arbitrary trees.',
+    '',
+    'effect analysis over mypy types + argument-mutation rule + ' + PE + ' + save/restore path rule',
+)
+
+claim(
+    'C05',
+    'Decided (necessary conditions): (R1) the facts frozen into a SelectorList may be defined from the list\'s own parse flags only - '
+    'the two places where an alternative (:dir(), :defined) turns its whole enclosing list HTML-only are genuine defects recorded as '
+    'known findings; (R2) the alternative loop is an OR of ANDs xor is_not; (R3) 64-case table of match_selectors over (HTML-only '
+    'list, HTML document, negated, element in the HTML namespace, compound passes, iframe restriction before): the gate depends on '
+    'list and document only, the checks see the right context, the context is restored; the lang and default-button memos are '
+    'transparent within one matcher; (R4) :not/:has/:is/:where/:matches are parsed with exactly NOT / RELATIVE / FORGIVE / FORGIVE / '
+    'no flag on top of PSEUDO|OPEN, the nested list is appended once and its HTML-only marker does not spread to the enclosing list; '
+    '(R5) a comma resets every piece of per-alternative parser state, the implied universal selector is added exactly to top-level '
+    'compounds, and each of twelve simple selectors alone is a selector. Not decided: the laws as set equalities over all documents.',
+    '',
+    'flag-scope rule + loop-shape rule + ' + PE,
+)
+
+claim(
+    'C06',
+    'Decided (sufficient modulo the catalogue of partial operations and the trusted base): over the functions reachable from compile() '
+    'in the type-resolved call graph, every explicit raise that can propagate to compile() (factory-built exceptions resolved through '
+    'mypy types) is SelectorSyntaxError, NotImplementedError, or a documented exception; every int/float/chr/datetime/decode/next/'
+    're.compile/str.format/constant-table-subscript site and every possibly-unbound local is discharged by a handler, by inclusion of '
+    'the feeding regex group in the conversion\'s domain (incl. the 4300-digit limit), by an interval argument, by a membership guard, '
+    'or by the escaping discipline of pattern templates; custom-selector recursion is cut and every CSSParser(...) construction '
+    'receives a value whose static type is str only; the arguments of the memoised compiler are hashable for every combination of '
+    'None / empty / non-empty maps. Not decided: exceptions from operations outside the catalogue, recursion depth, '
+    'warnings-as-errors.',
+    '',
+    'exception-escape analysis over a type-resolved call graph with language/interval discharges + ' + PE,
+)
+
+claim(
+    'C07',
+    'Decided (sufficient under the backtracking model of sre): every regular expression of the package - compiled patterns and '
+    'pattern templates folded from the sources, in every flags variant - is free of exponential ambiguity (EDA criterion with exact '
+    'look-ahead/look-behind handling); every token pattern consumes at least one character; the tokenizer attempts matches at '
+    'strictly increasing positions whatever token kind matches (interpreted with abstract matchers) and the structural path rule '
+    'agrees; no regex application escapes the inventory; custom-selector expansion is memoised; freezing a combinator chain costs '
+    'polynomially many evaluation steps in its length (measured on chains of 4..16 compounds). Not decided: wall-clock constants, '
+    'the polynomial degree, algorithmic cost outside the regexes, the token loop and freeze().',
+    'Static only: the regex sources are parsed with re._parser, never compiled or run.',
+    'regex ambiguity analysis (EDA via pair-graph SCC over look-ahead-exact eps-NFA) + scanner progress by ' + PE,
+)
+
+claim(
+    'C08',
+    'Decided (sufficient modulo the catalogue and the trusted base): over the functions reachable from the six matching entry points '
+    'the only explicit raise that can escape is the documented TypeError of assert_valid_input; every partial operation is discharged; '
+    'every util.lower() call receives a value whose type excludes None; values from get_parent() are not dereferenced while possibly '
+    'None; every ancestor/sibling walk advances on every path back to its head; (R6) every attribute value handed to a comparison is '
+    'the normalised one; (R7) the decision tables of match_lang, match_dir, match_root, get_descendants, get_children run without '
+    'raising on abstract trees whose elements carry list-valued (multi-valued) attributes, with util.lower modelled as str-only. '
+    'Not decided: termination of the arithmetic loops of match_nth; exceptions from operations outside the catalogue.',
+    '',
+    'exception-escape analysis + nullable-argument type rule + walk-progress path rule + ' + PE,
+)
+
+claim(
+    'C09',
+    'Decided (necessary conditions): (R1) the alternatives of the combinator token are mutually exclusive (exact look-ahead); (R2) '
+    'every unanchored regex search over raw selector text stays inside white space, and one token surrounded by any CSS white-space '
+    'character or comment tokenises to that token alone; (R3) on every def-use path from a match group to the IR css_unescape is '
+    'applied exactly once, quotes / prefixes are removed by position before the decode, nothing content-dependent (strip, replace) '
+    'touches the text; (R4) every comparison of matched text with a letter-bearing constant or key sees text lower-cased after its '
+    'last decode (also through helper parameters); (R5) the :lang()/:-soup-contains() grammars agree, their value lists are tiled by '
+    'RE_VALUES, NTH and its splitter RE_NTH are the same language; (R6) NEWLINE, WS, COMMENTS, CSS_ESCAPES, IDENTIFIER, VALUE and the '
+    'two escape decoders equal their CSS Syntax 3 definitions, group by group with the prefix-match semantics of .sub(). Not decided: '
+    'equality of compiled structures for all respellings at all positions.',
+    'Reference grammars are transcribed from CSS Syntax 3 in the rule pack.',
+    'regex language queries + string-provenance dataflow over the handlers + ' + PE,
+)
+
+claim(
+    'C10',
+    'Decided for every non-empty Unicode string (sufficient under the automata model): escape() is a per-character transducer whose '
+    'table (position class x code-point interval -> output template) is obtained twice - symbolically from its if/elif chain, and by '
+    'interpreting it on representatives of every interval delimited by the integer constants of the module plus every code point below '
+    'U+0100 - and both agree; the regular image language is included in IDENTIFIER; every template class decodes back to its '
+    'character against the decoder\'s own tables; escape() performs only total operations and escape("") is ""; the pattern text is '
+    'handed from compile() through the cache and CSSParser to the tokenizer unmodified (NUL -> U+FFFD only), with and without DEBUG; '
+    'an escaped identifier reaches the IR through one decode and position-based unquoting only. Not decided: that the selected '
+    'elements are those carrying that id/class/attribute (C01).',
+    'A shape the symbolic extractor does not know falls back to the interpreted table; if neither applies: ANALYSIS-ERROR.',
+    'symbolic transducer extraction cross-checked by ' + PE + ' + regular-language inclusion',
+)
+
+claim(
+    'C11',
+    'Decided: (R1) decision tables of match_tagname/get_tag, match_attribute_name and get_attribute_by_name over document kind (HTML, '
+    'XML, XHTML) x selector spelling x document spelling x prefix forms equal the case rules; (R2) for every operator x case flag x '
+    'attribute kind the compiled flags are IGNORECASE exactly for the i flag or an unflagged type attribute, DOTALL always, with a '
+    'case-sensitive twin exactly for an unflagged type attribute, which the matcher selects iff the document is XML; (R3) an HTML-only '
+    'list is evaluated iff the document is HTML and each pseudo-class the documentation marks HTML-only is bound to a definition '
+    'compiled with FLG_HTML or sets the marker; (R4) util.lower maps exactly A-Z. Not decided: document-type detection from a tree.',
+    '',
+    PE + ' + reachability on the path walker',
+)
+
+claim(
+    'C12',
+    'Decided: (R1) the decision table of match_attribute_name for [a], [|a], [*|a], [p|a], [q|a] over elements with up to two '
+    'attributes of seven kinds in HTML-with-namespaces, XML and XHTML equals the property\'s table, and the value returned is the '
+    'normalised one; (R3) likewise match_tag / match_namespace for E, |E, *|E, p|E, q|E and the universal selector x default entry x '
+    'four element namespaces; (R2) Tag.prefix is read only for :defined; (R4) the implied universal selector is added exactly to '
+    'top-level compounds; (R5) the prefix map is an immutable copy; (R6) the caller\'s prefix map is in force for every list except '
+    'inside HTML-only definitions and is restored on every path. The functions touch their inputs only through ==, is None, '
+    'truthiness and dict lookup, so the abstract cases are exhaustive for R3 and exhaustive up to two attributes for R1. Not decided: '
+    'whole-document behaviour (C01).',
+    '',
+    PE + ' + attribute-access census over mypy types',
+)
+
+claim(
+    'C13',
+    'Decided: (R1) the variable the ancestor walk fills has a None sentinel and is never tested by truthiness; (R2) the <meta> memo '
+    'is transparent within one matcher across two documents; (R3) every tree walk of match_lang passes no_iframe = "the document is '
+    'HTML"; (R4) the :lang() value list is tiled by RE_VALUES and decoded once; (R5) lang vs xml:lang is chosen per ancestor; (R6) '
+    'decision tables: the language found for an element (nearest lang attribute incl. the empty one, else the first meta carrying '
+    'both http-equiv=content-language and a non-empty content, in any attribute order and letter case, with list-valued attributes '
+    'around) and the logic of a compound (every :lang() must match, each through at least one range). Not decided: RFC 4647 '
+    'extended filtering itself (extended_language_filter), including the known trailing "-*" defect.',
+    'extended_language_filter is an algorithm over subtag sequences of unbounded length.',
+    'sentinel-consistency rule over mypy types + ' + PE + ' + string provenance',
 )
 
 claim(
     'C14',
-    'Decided by a confinement analysis (sufficient under the trusted base that functools.lru_cache and compiled '
-    're.Pattern objects are thread-safe): the objects retained by module- or class-level bindings (the token matcher '
-    'table, constants) are never written by any method other than __init__; no function rebinds a global, stores '
-    'into or calls a mutator on a module-/class-level object, or has a mutable default; CSSParser, CSSMatch, '
-    '_Selector and _FakeParent objects are constructed per call and never published; every memoised function returns '
-    'an immutable value and reads no variable module state. This covers all schedules at once because it shows the '
-    'absence of shared writes; no interleaving is sampled.',
+    'Decided by a confinement analysis (sufficient under the trusted base that functools.lru_cache and compiled re.Pattern objects '
+    'are thread-safe): objects retained by module- or class-level bindings are never written by any method other than __init__; no '
+    'function rebinds a global, stores into or calls a mutator on a module-/class-level object (also when reached through self.<attr> '
+    'for a container created in the class body), or has a mutable default; parser and matcher objects are constructed per call and '
+    'never published; every memoised function returns an immutable value and reads no variable module state. This covers all '
+    'schedules at once because it shows the absence of shared writes.',
     'Immutability of the css_types value classes is C15.',
     'shared-state confinement / escape analysis over the AST and class hierarchy',
 )
 
 claim(
-    'C20',
-    'Decided: (R1, sufficient for termination) both index-driven scanner loops - the selector tokenizer and the debug '
-    'pretty-printer - advance the index by a non-empty match or a positive constant on every path back to the loop '
-    'head, or leave; (R2) the pretty-printer has an emitting branch for every token kind; (R3) every '
-    'SelectorSyntaxError raised inside CSSParser has the three-argument form with self.pattern and the very position '
-    'expression its message names; (R4) every statement control-dependent on the debug flag is a plain print; (R5) '
-    'the error constructor derives line/column/context whenever pattern and index are not None (not merely truthy). '
-    'Not decided: the line/column arithmetic of get_pattern_context (incl. the known end-of-pattern defect) and '
-    'equality of pretty() output with repr.',
-    'The offset-to-(line, column) computation quantifies over run-time offsets; no structural clause of it was found '
-    'that is a necessary condition without being a frozen fragment.',
-    'scanner-loop path rule over a structural path walker + raise-site agreement + debug effect rule',
-)
-
-claim(
-    'C01',
-    'Decided (necessary conditions, each a rule over the current sources): (R1) no value obtained from get_parent() '
-    'reaches match_selectors without a dominating "not is_doc" test; (R2) for ^= $= *= ~= the pattern compiled for an '
-    'empty value has the empty language; (R3) token names = dispatch keys, every regex group a handler reads exists '
-    'in the token pattern that carries the key, every simple/special pseudo-class name has its branch/table row; '
-    '(R4) the rel_type strings the parser can store = the REL_* constants the matcher branches on; (R5) every '
-    'Selector slot and SEL_* flag is consulted by a guard of the form "if [pre and] not self.match_X(): continue" '
-    'ahead of the success assignment, and the helper predicates are AND-folds; (R6) each attribute-operator pattern '
-    'template, per operator x flags variant x literal shape and with re.match semantics, is language-equal to the '
-    "operator's definition; (R7) on every path taken for a comma the per-alternative parser state is reset; (R8) class "
-    'splitting and :empty use exactly the CSS whitespace set. Not decided: soundness/completeness of the tree walks '
-    'over all trees x selectors.',
+    'C15',
+    'Decided: (R1) the mutation surface is closed (__setattr__/__delattr__ raise, no overrides, maps copy their input); (R2) for each '
+    'value class an object built through the real constructor holds every argument in the same-named slot, the pickle/copy reducer '
+    'rebuilds an equal object with an equal hash, changing any single field makes objects unequal, strangers compare unequal, every '
+    'class is registered; (R3) contents are frozen; the map hash is the same for every order of the entries, for pairs and dict, for '
+    'pairs with repeated keys and the equal dict, and differs for unequal maps; (R4) compile() hands exactly its four inputs to the '
+    'bounded lru_cache for every combination of None / empty / non-empty maps and flags, compile(compiled, extra) raises ValueError, '
+    'purge clears the cache, and the compiled object keeps the pattern text it was given. Not decided: LRU contents over call '
+    'histories.',
     '',
-    'taint/dominance rule + table agreement + regex language equality + event-tracking path walk',
+    'AST table-agreement rules + ' + PE + ' (constructors, equality, reducer, map hash with injective stand-ins for hash/type)',
 )
 
 claim(
-    'C12',
-    'Decided: (R1) the decision table of match_attribute_name for [a], [|a], [*|a], [p|a] (mapped) and [q|a] '
-    '(unmapped) over every element with up to two attributes drawn from seven kinds (plain, upper-case, other name, '
-    'in the mapped namespace, in another namespace, in another namespace under a document prefix equal to the '
-    'selector prefix), in XML and in namespace-aware HTML, equals the table the property states; (R3) likewise '
-    'match_namespace for E, |E, *|E, p|E, q|E x default entry present/absent x four element namespaces; (R2) '
-    'Tag.prefix is read only by get_prefix_name, whose transitive callers are get_prefix and match_defined; (R4) the '
-    'implied universal selector is ("*", None) under "not sel.tag and not is_pseudo" at both sites; (R5) the prefix '
-    'map is an immutable copy. Both functions touch their inputs only through ==, is None, truthiness and dict '
-    'lookup, so the abstract cases are exhaustive for R3 and exhaustive up to two attributes per element for R1. '
-    'Not decided: whole-document behaviour (C01).',
-    'R1/R3 interpret the function ASTs over the abstract cases with a small evaluator; anything outside its '
-    'fragment is an ANALYSIS-ERROR.',
-    'decision-table extraction by finite-domain evaluation of the AST + attribute-access census over mypy types',
-)
-
-claim(
-    'C11',
-    'Decided: (R1) the decision tables of match_tagname/get_tag, match_attribute_name and get_attribute_by_name over '
-    '(XML vs HTML) x (lower/upper/mixed spelling on the selector side) x (lower/upper/mixed spelling on the document '
-    'side) x prefix forms equal the case rules of the property; (R2) the attribute flag chain gives IGNORECASE exactly '
-    'for the i flag or an unflagged type attribute (any spelling of "type"), DOTALL always, and a case-sensitive twin '
-    'exactly for an unflagged type attribute, which the matcher selects iff the document is XML; (R3) an HTML-only '
-    'selector list is evaluated iff self.is_html (reachability under both assumptions), and each of the 16 '
-    'pseudo-classes the documentation marks HTML-only is compiled with FLG_HTML or sets the marker; (R4) util.lower '
-    'maps exactly A-Z (evaluated on all ASCII code points and on non-ASCII letters). The functions touch their '
-    'operands only through ==, membership, util.lower and None tests, so the spelling classes are exhaustive. Not '
-    'decided: document-type detection from a tree.',
-    '',
-    'decision-table extraction by finite-domain evaluation of the AST + reachability on the path walker',
-)
-
-claim(
-    'C13',
-    'Decided (necessary conditions on the language determination): the variable the ancestor walk fills from lang '
-    'attributes has a None sentinel and is never tested by truthiness (so lang="" ends the walk); the <meta> memo '
-    'stores a miss as a miss and a hit as the value the path uses, under the same key variable it looks up with, and '
-    'that key is the top of the walk on every path that ends the walk without a language (so an iframe document never '
-    "reads the outer document's entry); every tree accessor in match_lang passes no_iframe=self.is_html; the lang / "
-    'xml:lang choice tests the namespace of the very node whose attributes are inspected; the :lang() value list is '
-    'tiled by RE_VALUES and each range is decoded exactly once. Not decided: RFC 4647 extended filtering itself '
-    '(extended_language_filter), including the known trailing "-*" defect.',
-    'extended_language_filter is an algorithm over subtag sequences of unbounded length; no sound static argument '
-    'short of a loop-invariant proof decides it.',
-    'sentinel-consistency rule over mypy types + memo-transparency rules on the path walker + string provenance',
+    'C16',
+    'Decided (sufficient for the stated failure mode, under the premise read from the installed bs4 sources): no import-time code of '
+    'the package - module/class level statements, base lists, decorators, defaults, annotations evaluated at import, and every '
+    'function reachable from them - evaluates a bs4 name that is not yet bound at that moment; module-level imports inside the '
+    'package are acyclic; the same code reaches no print/warn/warnings-filter or other process-wide effect outside a debug guard; '
+    'every name in __all__ is bound. Not decided: equality of select() results between import orders.',
+    'The safe-name sets are recomputed from the installed bs4 on every run.',
+    'import-time reachability over a type-resolved call graph + bs4 import-chain analysis',
 )
 
 claim(
     'C17',
-    'Decided: (R1) the partition laws hold by construction of the definitions: :enabled is one compound over the '
-    'same control list as :disabled[disabled] ending in :not(:disabled) and every inherited-disabledness alternative '
-    'selects a control of that list; :required/:optional are Y[required] / Y:not([required]) over input, textarea, '
-    'select; :read-only is html|*:not(:read-write); :in-range/:out-of-range are one selector with complementary flags; '
-    ':link and :any-link share one definition; :checked is the first alternative of :default; the flagged definitions '
-    'keep the specially handled alternative last; all are compiled HTML-only; (R2) every tree accessor in '
-    'match_default, match_indeterminate (incl. its nested form search) and match_dir passes no_iframe=True, '
-    'match_lang/match_contains pass self.is_html, the relation walks pass self.iframe_restrict, and none of the state '
-    'matchers anchors on self.root/self.scope/self.tag; (R3) the memo tables are lists scanned by identity; (R4) the '
-    'decision table of match_range over all orders/None-ness of (min, max, value) x type x query; (R5) on a finite '
-    'universe of abstract form trees the definitions agree with predicates transcribed from the HTML Standard. '
-    'Not decided: each pseudo-class on all documents (form owner attribute, radio groups, bidi resolution).',
+    'Decided: (R1) the partition laws hold by construction of the definitions (paired definitions share their control lists, '
+    'complements are :not of the other, :link and :any-link have one effect, :checked heads :default); (R2) every walk of the state '
+    'matchers respects the iframe boundary and none anchors on the global root, get_descendants equals its definition on eight '
+    'abstract trees; (R3) the memo tables are identity-keyed and the default button of each form is found correctly whatever was '
+    'asked before (three forms, two identical, six orders); (R4) 896-case table of match_range over all orders/None-ness of (min, max, '
+    'value) x type x query; (R5) on a finite universe of abstract form trees the definitions agree with predicates transcribed from '
+    'the HTML Standard; (R6) 450-case table of match_dir/find_bidi (element kind x dir x text x parent direction) and the content '
+    'rule of :placeholder-shown equal the HTML Standard. Not decided: each pseudo-class on all documents (form owner attribute, radio '
+    'groups across arbitrary trees).',
     '',
-    'definition-agreement rules over the selector constants + effect rules + finite-domain decision table',
+    'definition-agreement rules over the selector constants + effect rules + ' + PE + ' + independent selector evaluator',
+)
+
+claim(
+    'C18',
+    'Decided: (R1) each value-shape regex accepts only valid HTML date/month/week/time/local-date-time/number strings and all of them '
+    'within the implemented subset (the gap - seconds, space separator - is a recorded known finding); (R2) bounds and month lengths '
+    'agree with the proleptic Gregorian calendar on every month x (year mod 400); (R3) calendar calls only receive years proven inside '
+    '1..9999; (R4) the range-typed input list agrees between definition, parser and comparison; (R5) match_range is correct for every '
+    'relative order and None-ness of (min, max, value) per type incl. wrapped time ranges; (R6) every string a shape regex accepts '
+    'lies inside the domain of the int()/float() it is handed to (so no accepted value is lost in a swallowed ValueError); (R7) all '
+    'parsed values of one type have one arity, whichever optional groups took part. Not decided: ISO week counts (pinned by the '
+    'existing tests) and numeric conversion results.',
+    '',
+    'regex language inclusion vs HTML grammars + finite-domain abstract evaluation + ' + PE,
 )
 
 claim(
     'C19',
-    'Decided: (R1) the isinstance tuple of is_special_string covers every subclass of PreformattedString of the '
-    'installed bs4 (read from its sources) and no plain-text subclass, and is_content_string is navigable AND NOT '
-    'special (as necessary conditions of a true result); (R2) every text reader (get_text, get_own_text, match_empty, '
-    'match_root, find_bidi, the textarea branch of match_dir) consults that classification, the two collectors filter '
-    'every node; (R3) descendant text is "".join of the descendants\' content strings, own text is the unjoined list of '
-    'direct child strings tested one by one, both with no_iframe=self.is_html; (R4) between the match group and the IR '
-    'a needle undergoes only [1:-1] (quote removal) and exactly one css_unescape, in string mode iff quoted; (R5) :empty '
-    'tests text with the complement of the CSS whitespace class. Not decided: substring results over all trees and the '
-    'resume-point navigation of the iframe skipping in get_descendants.',
+    'Decided: (R1) is_special_string covers every PreformattedString subclass of the installed bs4 and no plain-text subclass, '
+    'content = navigable AND NOT special; (R2) every text reader consults the classification; get_text / get_own_text over [text, '
+    'comment, tag, text, CDATA, text] return the content strings only, joined vs per node, from descendants vs children, flag '
+    'forwarded, without touching bs4\'s own text API; get_descendants equals its definition on eight abstract trees; (R3) decision '
+    'table of match_contains (any-of within a list, conjunction of several pseudo-classes, joined vs per-node search, mixed '
+    'own/descendant, no_iframe = document is HTML) and transparency of any text memo across look-alike elements; (R4) a needle '
+    'undergoes only [1:-1] and one css_unescape; (R5) :empty uses the complement of the CSS white-space class and looks at the '
+    'element\'s own children. Not decided: substring results over all trees.',
     '',
-    'class-hierarchy exhaustiveness vs bs4 sources + shape rules + string provenance',
+    'class-hierarchy exhaustiveness vs bs4 sources + ' + PE + ' + string provenance + bounded tables on abstract trees',
 )
 
 claim(
-    'C04',
-    'Decided: (R1, sufficient under the trusted base that bs4 read accessors are pure) every expression whose mypy '
-    'type is a bs4 page element is only ever read: no store/del/augmented assignment through it, no method call '
-    'outside a list of read accessors, no escape into a callable outside the package or a short pure list (233 sites '
-    'classified; Any-typed expressions are listed as gaps and mutator method names on them are findings); (R2) each '
-    'SoupSieve method constructs a fresh matcher and stores it nowhere, nothing reachable from the matching API rebinds '
-    'globals; (R3) the three memo tables are fresh per-matcher lists, appended only under the key variables their '
-    'lookup compares, primary key by identity; (R4) every matcher attribute written outside __init__ is first saved in '
-    'a local of the same activation and restored from it on every non-exceptional path to the exit (the function is '
-    're-entrant). Not decided: equality of answers across two runs / a pristine copy as an observed result.',
+    'C20',
+    'Decided: (R1, sufficient for termination) both scanners attempt matches at strictly increasing positions for every token kind and '
+    'for "no token", their regexes are non-nullable and free of exponential ambiguity; (R2) the pretty-printer emits the matched text '
+    'of every token kind once and copies unmatched characters; (R3) every SelectorSyntaxError raised inside CSSParser carries '
+    'self.pattern and the position its message names, never a position taken from a group that may not have taken part; (R4) '
+    'statements under the debug flag only print and DEBUG does not change how the top-level list is handed to the parser; (R5) the '
+    'error constructor derives line/column/context exactly when pattern and index are given (None-ness, not truthiness) and the '
+    'message carries them; (R6) lines are delimited by LF, CR, CRLF only. Not decided: the line/column arithmetic of '
+    'get_pattern_context (incl. the known end-of-pattern defect) and equality of pretty() output with repr.',
     '',
-    'effect analysis over mypy types + memo discipline + save/restore path rule',
-)
-
-claim(
-    'C05',
-    'Decided (necessary conditions; the skeleton the laws rest on): (R1) the facts frozen into a SelectorList '
-    '(is_not, is_html) may be defined from the list\'s own parse flags only - the two places where an alternative '
-    '(:dir(), :defined) turns its whole enclosing list HTML-only are genuine defects recorded as known findings, any '
-    'other leak is a violation; (R2) the alternative loop starts each alternative from `match = is_not`, skips '
-    'SelectorNull, and ends with `match = not is_not; break`; (R3) the HTML-only context swap is saved in a local and '
-    'restored on every path of the same activation, no other method writes matcher state, and the list is evaluated '
-    'iff `not is_html or self.is_html`; (R4) :not/:has/:is/:where/:matches are parsed with exactly the flags NOT / '
-    'RELATIVE / FORGIVE / FORGIVE / none on top of PSEUDO|OPEN; (R5) a comma resets every piece of per-alternative '
-    'parser state and the implied universal selector has the same guard at both sites. Not decided: the laws as set '
-    'equalities over all documents.',
-    '',
-    'flag-scope rule + loop-shape rule + save/restore path rule + finite decision table',
-)
-
-claim(
-    'C06',
-    'Decided (sufficient modulo the catalogue of partial operations and the trusted base): over the 67 functions '
-    'reachable from compile() in the type-resolved call graph, every explicit raise that can propagate to compile() '
-    '(after filtering by the handlers around each call site) is SelectorSyntaxError, NotImplementedError, or one of '
-    'the enumerated documented exceptions (KeyError for duplicate custom names; ValueError/TypeError for arguments '
-    'outside the stated domain); every int/float/chr/datetime/decode/next/re.compile/constant-table-subscript site and '
-    'every possibly-unbound local is discharged by an enclosing handler, by inclusion of the feeding regex group in the '
-    "conversion's domain (incl. the 4300-digit limit), by an interval argument, or by the escaping discipline of "
-    'pattern templates; the custom-selector recursion is cut (name removed for the nested parse, restored after); the '
-    'arguments of the memoised compiler are hashable. Not decided: exceptions from operations outside the catalogue '
-    '(run-time subscripts and cast()/Any sites are listed as unproven), recursion depth, warnings-as-errors.',
-    '',
-    'exception-escape analysis over a type-resolved call graph with language/interval discharges',
-)
-
-claim(
-    'C08',
-    'Decided (sufficient modulo the catalogue and the trusted base): over the functions reachable from select, '
-    'select_one, iselect, match, filter and closest in the type-resolved call graph, the only explicit raise that can '
-    'propagate to the API is the documented TypeError of assert_valid_input; every int/float/chr/datetime/decode/next/'
-    're.compile site and every possibly-unbound local is discharged (handler at the site or around a call site on the '
-    "way up, inclusion of the regex group in the conversion's domain incl. the 4300-digit limit, interval of the year "
-    'argument of datetime(), errors= on decode); every util.lower() call in that code receives a value whose type '
-    'excludes None (mypy types refined by the nullable-passthrough summary of get_attribute_by_name, which is itself '
-    'checked); values from get_parent() are not dereferenced while possibly None; every ancestor/sibling walk advances '
-    'or sets a tested variable on every path back to its head, and no walk loop returns to its head with an identical '
-    'environment in the scenario "element without parent or siblings" (None-propagation through the package\'s own '
-    'accessors: definite non-termination). Not decided: termination of the arithmetic loops of match_nth; exceptions '
-    'from operations outside the catalogue.',
-    '',
-    'exception-escape analysis + nullable-argument type rule + walk-progress path rule + None-propagation',
+    'scanner progress by ' + PE + ' + regex ambiguity analysis + raise-site agreement + debug effect rule',
 )
